@@ -19,7 +19,7 @@ func c06(e *Env) {
 	r.Explain("Oracle per encode: (i) the unread bytes present before the call are unchanged afterwards; (ii) the appended bytes equal the bytes obtained by encoding a deep clone (taken before the first encode) into a fresh empty buffer; (iii) encoding the same object a second and a third time into fresh buffers gives the same bytes (computed fields and materialised bodies do not change the result); (iv) for a sequence m1..mn with random drains, the final unread content equals the concatenation of the individual fresh encodings minus the drained prefix.")
 	r.Assume("bytes.Buffer itself is correct")
 	types := e.Types()
-	n := e.N(60, 2000)
+	n := e.N(60, 5000)
 	hs := newFeatAcc()
 	e.Par(len(types), func(i int) {
 		t := types[i]
@@ -118,7 +118,7 @@ func c06(e *Env) {
 	})
 	// ---- (iv) sequences
 	if e.Only == "" {
-		nseq := e.N(2000, 50000)
+		nseq := e.N(2000, 150000)
 		var codecs []*schema.Type
 		byMod := map[string][]*schema.Type{}
 		for _, t := range e.S.Order {
